@@ -100,6 +100,8 @@ def gen_pattern(rng, family=None, coherent=True, reorder=False):
 
 
 BOUNDARY_INTS = [0, 0, 1, 1, 2, 9, 10, 99, 100, 7, 42]
+# far beyond any counter: 2**31, 2**63, twenty nines (the documented parts have no upper bound)
+HUGE_INTS = [2 ** 31 - 1, 2 ** 31, 2 ** 63, 2 ** 64 - 1, 10 ** 20 - 1, 10 ** 20 - 1, 10 ** 25, 999999999]
 
 
 def gen_bid(rng, bld=False, allow_zero=False):
@@ -132,8 +134,12 @@ def gen_state(rng, tree, date):
             st[field] = cal[field]
         elif field in ("major", "minor", "patch", "inc0"):
             st[field] = rng.choice(BOUNDARY_INTS) if rng.random() < 0.8 else rng.randint(0, 5000)
+            if rng.random() < 0.02:
+                st[field] = rng.choice(HUGE_INTS)
         elif field == "inc1":
             st[field] = max(1, rng.choice(BOUNDARY_INTS))
+            if rng.random() < 0.02:
+                st[field] = rng.choice(HUGE_INTS)
         elif field == "bid":
             st[field] = gen_bid(rng, bld=(kind == "bld" or kind.startswith("bldpad")))
             if kind == "build4":
@@ -151,7 +157,7 @@ def gen_state(rng, tree, date):
     if "tag" in st or "num" in [rp.PARTS[n][0] for n in names]:
         tag = st.get("tag", "final")
         if "NUM" in names:
-            st["num"] = 0 if tag == "final" else rng.choice([0, 0, 1, 9, 10])
+            st["num"] = 0 if tag == "final" else rng.choice([0, 0, 1, 9, 10, 10, 99, 10 ** 20 - 1])
             if "tag" not in st:
                 st["num"] = rng.choice([0, 1, 9, 10])
     return st
